@@ -480,7 +480,12 @@ def load_known() -> list[dict]:
     p = os.path.join(VERIF, "known_findings.json")
     if not os.path.exists(p):
         return []
-    return [e for e in json.load(open(p)).get("findings", []) if e.get("status") == "known"]
+    for _ in range(5):
+        try:
+            return [e for e in json.load(open(p)).get("findings", []) if e.get("status") == "known"]
+        except json.JSONDecodeError:  # being rewritten by an editor: retry
+            time.sleep(0.2)
+    raise
 
 
 class Verdict:
